@@ -175,9 +175,9 @@ Proof.
   intros Hx Hy E.
   assert (Hbz : b <> 0) by lia.
   assert (Ex : (x + b * X) mod b = x).
-  { rewrite N.add_comm, N.mul_comm, N.mod_add by exact Hbz. apply N.mod_small; exact Hx. }
+  { replace (x + b * X) with (x + X * b) by lia. rewrite N.mod_add by exact Hbz. apply N.mod_small; exact Hx. }
   assert (Ey : (y + b * Y) mod b = y).
-  { rewrite N.add_comm, N.mul_comm, N.mod_add by exact Hbz. apply N.mod_small; exact Hy. }
+  { replace (y + b * Y) with (y + Y * b) by lia. rewrite N.mod_add by exact Hbz. apply N.mod_small; exact Hy. }
   assert (x = y) by (rewrite <- Ex, <- Ey, E; reflexivity).
   split; [assumption|]. subst y. assert (b * X = b * Y) by lia.
   apply N.mul_cancel_l in H; assumption.
@@ -260,8 +260,8 @@ Section Radix.
   Proof.
     intro Hn. destruct (to_digits b n) as [|d r] eqn:E; [cbn; lia|].
     assert (L : b ^ N.of_nat (pred (length (d :: r))) <= n).
-    { rewrite <- (of_to_digits n) at 2. rewrite E. apply of_digits_lower; [|discriminate].
-      rewrite <- E. apply to_digits_canon. }
+    { pose proof (of_to_digits n) as V. rewrite E in V. rewrite <- V.
+      apply of_digits_lower; [|discriminate]. rewrite <- E. apply to_digits_canon. }
     destruct (le_lt_dec (length (d :: r)) k) as [Hle|Hgt]; [exact Hle|exfalso].
     assert (b ^ N.of_nat k <= b ^ N.of_nat (pred (length (d :: r)))) by (apply N.pow_le_mono_r; lia).
     lia.
@@ -289,7 +289,7 @@ Section Radix.
     pose proof (of_to_digits n) as V. pose proof (to_digits_lt n) as D.
     destruct (to_digits b n) as [|d r]; [discriminate|].
     cbn [hd]. rewrite of_digits_cons in V. cbn [length] in Hl. injection Hl as Hl. rewrite Hl in V.
-    inversion D as [|? ? _ Dr]; subst. pose proof (of_digits_bound r Dr) as Br. rewrite Hl in Br.
-    symmetry. apply N.div_unique with (r := of_digits b r); [exact Br|lia].
+    pose proof (Forall_inv_tail D) as Dr. pose proof (of_digits_bound r Dr) as Br. rewrite Hl in Br.
+    apply N.div_unique with (r := of_digits b r); [exact Br|lia].
   Qed.
 End Radix.
